@@ -12,6 +12,10 @@
 import GojaModel.C19.Normalize
 import GojaModel.C19.AllowList
 import GojaModel.C19.Reviver
+import GojaModel.C19.ReplacerThm
+import GojaModel.C19.TokSound
+import GojaModel.C19.ReviverMut
+import GojaModel.C19.MechThm
 
 namespace GojaModel.C19
 
@@ -140,6 +144,44 @@ theorem allowlist_roundtrip (items : List Str) (gap : Str) (hg : AllWs gap) (v :
   rw [allowlist_is_projection]
   exact parseRaw_stringify gap hg _ hv
 
+/-- mechanism level (Mech.lean: builtin_json.go str / ja / jo as written — one output buffer, a mutable `ctx.indent` that
+    every container saves, extends and restores, separators written eagerly, `buf.Truncate` for members that turn out
+    undefined and for objects that end up empty): it REFINES the specification.  For every value (with undefined /
+    function leaves anywhere), every gap, every buffer content and every current indent, `str` appends exactly the text
+    SerializeJSONProperty specifies for the cleaned value and leaves `ctx.indent` as it found it, or — value undefined —
+    touches neither buffer nor indent and returns false.  (The indentation defect repaired by 2f63d0b falsified this.) -/
+theorem stringify_mechanism_refines_spec (gap : Str) (v : MVal) (buf ind : Str) :
+    strM gap v buf ind =
+      match clean v with
+      | some j => (buf ++ ser gap ind j, ind, true)
+      | none => (buf, ind, false) :=
+  mechOK gap v buf ind
+
+/-- replacer function / toJSON, result substitution: for EVERY pair of hooks (stateful toJSON and replacer function),
+    every state, holder, key, value, gap, indent and fuel, serialising with the hooks is plain serialisation of the
+    rewritten value — toJSON result, then replacer result, substituted top-down; undefined members dropped, undefined
+    elements → null — with exactly the same state threading (same calls in the same order). -/
+theorem replacer_substitution {σ : Type} (H : Hooks σ) (gap ind : Str) (f : Nat) (s : σ) (h : JVal) (k : Str) (v : JVal) :
+    serH H gap f ind s h k v = (rewH H f s h k v).map (fun p => (p.1, p.2.map (ser gap ind))) :=
+  (serRew_all H gap f).1 ind s h k v
+
+/-- replacer function, call order and arguments: the logging identity replacer `function(k,v){LOG.push([this,k]);return v}`
+    is called once per property, in pre-order (a property before the properties of its value, elements by ascending
+    index, members in key order), first for the root with key "" and holder `{"": value}`, every later call with the
+    enclosing value as holder — and the text is the plain one.  ∀ values, gaps, initial logs, sufficient fuel. -/
+theorem replacer_call_order (gap : Str) (v : JVal) (log : List (JVal × Str)) (f : Nat) (hf : need v ≤ f) :
+    stringifyH logRepl gap f log v = some (log ++ preCalls (rootHolder v) [] v, some (stringify gap v)) := by
+  unfold stringifyH
+  rw [replacer_substitution, rew_log v (rootHolder v) [] log f hf]
+  rfl
+
+/-- without a replacer function and without toJSON the hook-aware serialiser is the plain one -/
+theorem no_hooks_is_plain_stringify (gap : Str) (v : JVal) (f : Nat) (hf : need v ≤ f) :
+    stringifyH noHooks gap f () v = some ((), some (stringify gap v)) := by
+  unfold stringifyH
+  rw [replacer_substitution, rew_none v (rootHolder v) [] f hf]
+  rfl
+
 /-- reviver walk (InternalizeJSONProperty): the identity reviver returns the parsed value unchanged … -/
 theorem reviver_identity (k : Str) (v : JVal) : revive (fun _ x => some x) k v = some (emb v) :=
   revive_id_aux k v
@@ -155,6 +197,13 @@ theorem reviver_call_order (k : Str) (v : JVal) (log : List Str) :
 theorem reviver_pure_is_stateless (R : Reviver) (k : Str) (v : JVal) :
     reviveS (σ := Unit) (fun _ k x => ((), R k x)) k v () = ((), revive R k v) :=
   reviveS_pure R k v
+
+/-- revivers that edit their holder: a property that is a primitive, a hole or already deleted when its turn comes is
+    handed to the reviver once with its CURRENT value (undefined if absent) -/
+theorem reviver_current_value {σ : Type} (R : ReviverM σ) (f : Nat) (s : σ) (holder : RVal) (key : Str)
+    (h : ∀ xs, rGet holder key ≠ some (.arr xs)) (h' : ∀ ms, rGet holder key ≠ some (.obj ms)) :
+    walkM R (f + 1) s holder key = some (R s holder key (rGet holder key)) :=
+  walkM_noncontainer R f s holder key h h'
 
 /-- duplicate keys: the last value wins at the position of the first occurrence; "__proto__" is a key like any other -/
 theorem upsert_existing (k : Str) (v v' : JVal) (pre post : List (Str × JVal)) (h : k ∉ keys pre) :
@@ -183,6 +232,21 @@ theorem parse_rejects_iff_not_text (t : Str) : parseRaw t = none ↔ ¬ ∃ v, T
     cases hp : parseRaw t with
     | none => rfl
     | some v => exact absurd ⟨v, (parse_total_decides t v).mp hp⟩ h
+
+/-- mechanism level (Tok.lean: Go's `Decoder.Token` state machine driven by builtin_json.go's decodeValue / decodeToken /
+    decodeArray / decodeObject / decodeObjectKey and the trailing-token check): it accepts exactly the grammar … -/
+theorem tokenizer_delegation_accepts_exactly_grammar (t : Str) (v : JVal) : gojaParseRaw t = some v ↔ Text t v :=
+  gojaParseRaw_iff_text t v
+
+/-- … so it REFINES the spec-level parser: same result on every text (every token state, any nesting) -/
+theorem tokenizer_delegation_refines_spec (t : Str) : gojaParseRaw t = parseRaw t :=
+  gojaParseRaw_eq_parseRaw t
+
+/-- which texts does the delegated tokenizer accept beyond ECMA-404?  None (on the code units it is given; the only
+    difference of goja is the UTF-8 view of the text — lone surrogates become U+FFFD — handled as `fixText`) -/
+theorem tokenizer_accepts_nothing_beyond_grammar : ¬ ∃ t v, gojaParseRaw t = some v ∧ ¬ Text t v := by
+  rintro ⟨t, v, h, hn⟩
+  exact hn (gojaParseRaw_sound h)
 
 /-- number tokens: the lexer's result is a lexeme of the number grammar and a prefix of the input … -/
 theorem number_lexer_sound (s l r : Str) (h : parseNum s = some (l, r)) : NumGram l ∧ s = l ++ r :=
